@@ -540,7 +540,13 @@ func c20Check(w *mc.W, cs *c20Case) {
 			tf := c20Transforms[cs.TF]
 			tfName = tf.name
 			if tf.tf != nil {
-				g.SetTransform(tf.tf...)
+				// the transform is configured from a slice the caller goes on to reuse: what counts is
+				// its content at the time of the call
+				mine := append([]generate.Aff3(nil), tf.tf...)
+				g.SetTransform(mine...)
+				for i := range mine {
+					mine[i] = generate.Aff3{7, 0, 100, 0, -3, -100}
+				}
 			}
 			err = g.SetPathData(d, cs.Adj)
 			want, mags = c20Expect(cs.Cmds, cs.Adj, c20GenXform(tf.tf))
